@@ -515,6 +515,7 @@ impl<'a> Gen<'a> {
                 }
                 if (!self.closed || self.closed_args) && self.p.chance(1, 10) {
                     // equal to nothing, itself included, whatever its bits
+                    self.kinds.insert("float-nan");
                     return E::OpaqueK("0.0 / 0.0", "NaN", "nan");
                 }
                 let (a, b) = *self.p.pick(&[("1.5", "1.5"), ("0.0", "0"), ("0.0", "0"), ("-2.25", "-2.25"), ("1000000.0", "1000000")]);
